@@ -201,12 +201,13 @@ func EntryLocks(p *Prog, pkgPath string) (map[*ssa.Function]LockSet, map[*ssa.Fu
 		ok := true
 		var sites []ssa.Instruction
 		for _, r := range *f.Referrers() {
-			mc, isMC := r.(*ssa.MakeClosure)
-			if !isMC {
-				ok = false
-				break
+			// a literal that captures nothing is used as a plain function value
+			var mc ssa.Value = f
+			users := []ssa.Instruction{r}
+			if m, isMC := r.(*ssa.MakeClosure); isMC {
+				mc, users = m, Refs(m)
 			}
-			for _, u := range Refs(mc) {
+			for _, u := range users {
 				if _, isDbg := u.(*ssa.DebugRef); isDbg {
 					continue
 				}
@@ -216,6 +217,33 @@ func EntryLocks(p *Prog, pkgPath string) (map[*ssa.Function]LockSet, map[*ssa.Fu
 					break
 				}
 				cal := cl.Call.StaticCallee()
+				// handed to a function of this package that does nothing with it but
+				// call it (`f.nearestEntryWith(name, func(e) bool {…})`): the literal runs
+				// at those calls, with the locks held there
+				if cal != nil && inPkg[cal] && cl.Call.Value != mc && len(cal.Params) == len(cl.Call.Args) {
+					onlyCalled := true
+					var inner []ssa.Instruction
+					for i, a := range cl.Call.Args {
+						if a != mc {
+							continue
+						}
+						for _, u2 := range Refs(cal.Params[i]) {
+							if _, isDbg := u2.(*ssa.DebugRef); isDbg {
+								continue
+							}
+							c2, isCall2 := u2.(*ssa.Call)
+							if !isCall2 || c2.Call.Value != ssa.Value(cal.Params[i]) {
+								onlyCalled = false
+								break
+							}
+							inner = append(inner, c2)
+						}
+					}
+					if onlyCalled && len(inner) > 0 {
+						sites = append(sites, inner...)
+						continue
+					}
+				}
 				if cal == nil || cal.Pkg == nil || strings.HasPrefix(cal.Pkg.Pkg.Path(), ModPath) {
 					// generic library functions are instantiated: Pkg is nil for those
 					if cal == nil || cal.Origin() == nil || cal.Origin().Pkg == nil || strings.HasPrefix(cal.Origin().Pkg.Pkg.Path(), ModPath) {
@@ -225,7 +253,7 @@ func EntryLocks(p *Prog, pkgPath string) (map[*ssa.Function]LockSet, map[*ssa.Fu
 				}
 				isArg := false
 				for _, a := range cl.Call.Args {
-					if a == ssa.Value(mc) {
+					if a == mc {
 						isArg = true
 					}
 				}
@@ -413,3 +441,7 @@ func AcquireSummary(fn *ssa.Function) LockSet {
 	acquireMemo[fn] = out
 	return out
 }
+
+// LockOp: the table lock an instruction operates on and how (1 Lock, 2 RLock, -1 Unlock,
+// -2 RUnlock; 0 when it is no lock operation).
+func LockOp(in ssa.Instruction) (name string, op int) { return lockOp(in) }
